@@ -9,3 +9,5 @@ int atoi(const char *s)
     while(*s >= '0' && *s <= '9') { v = v * 10u + (unsigned)(*s - '0'); s++; }
     return neg ? -(int)v : (int)v;
 }
+/* clang -O1 rewrites atoi(s) as (int)strtol(s, NULL, 10); only that form is modelled */
+long strtol(const char *s, char **end, int base) { (void)end; (void)base; return (long)atoi(s); }
